@@ -180,7 +180,66 @@ func showCol(rows []frameRow, key portKey) string {
 
 // framesOracle checks the statement directly: every completed frame pairs the k-th request of a
 // port with the k-th answer of that same port (FIFO per port), every request has its frame.
-func framesOracle(t *tap, sess int, rows []frameRow) (class, what string) {
+func framesOracle(t *tap, sess int, rows []frameRow, sr *sessRun) (class, what string) {
+	// (1) against the request log (the harness's reference reading of the workflow, independent of
+	// any packet hook): on every port exactly one frame per request that passed it, none half-open
+	if sr != nil {
+		perPort := map[portKey][]frameRow{}
+		for _, r := range rows {
+			perPort[r.key] = append(perPort[r.key], r)
+		}
+		hooks := map[portKey]int{}
+		for _, e := range t.log {
+			if e.sess == sess && e.inb == (e.key.in >= 0) {
+				hooks[e.key]++
+			}
+		}
+		for _, key := range t.keys {
+			want := sr.ip.reqs[portReq{key.sym, key.in < 0, t.names[key]}]
+			if got := len(perPort[key]); got != want {
+				return "frame-count-vs-requests", fmt.Sprintf("port %v (%s): %d requests passed the port but the agent holds %d frames for it (its request hook fired %d times)", key, t.names[key], want, got, hooks[key])
+			}
+			for i, r := range perPort[key] {
+				if r.in < 0 || r.out < 0 {
+					return "frame-half-open", fmt.Sprintf("port %v (%s): frame %d is half-open (in=%s out=%s) although every request has been answered", key, t.names[key], i, pid(r.in), pid(r.out))
+				}
+			}
+		}
+		// (2) at the ends the harness drives itself it knows request i and answer i by identity
+		// (reqs == nil: the request is not compared by identity – whether the writer's hook is shown
+		// the packet handed to Write or the copy it delivers is not part of the statement)
+		check := func(key portKey, reqs, answs []*packet.Packet) (string, string) {
+			for i, r := range perPort[key] {
+				req, ans := r.in, r.out
+				if key.in < 0 {
+					req, ans = r.out, r.in
+				}
+				if i >= len(answs) || (reqs != nil && i >= len(reqs)) {
+					break
+				}
+				wr, wa := req, t.pcks[answs[i]]
+				if reqs != nil {
+					wr = t.pcks[reqs[i]]
+				}
+				if wr != req || wa != ans {
+					return "frame-not-request-i-answer-i", fmt.Sprintf("port %v (%s): frame %d holds request packet %s and answer packet %s, but request %d was packet %s and its answer was packet %s", key, t.names[key], i, pid(req), pid(ans), i, pid(wr), pid(wa))
+				}
+			}
+			return "", ""
+		}
+		for _, key := range t.keys {
+			switch sr.s.f.spec.nodes[key.sym].kind {
+			case "src":
+				if c, w := check(key, nil, sr.resp[key.sym]); c != "" {
+					return c, w
+				}
+			case "sink":
+				if c, w := check(key, sr.arrived[key.sym], sr.sent[key.sym]); c != "" {
+					return c, w
+				}
+			}
+		}
+	}
 	reqs, answs := map[portKey][]int{}, map[portKey][]int{}
 	for _, e := range t.log {
 		if e.sess != sess {
@@ -285,11 +344,29 @@ func framesCaseBody(c *lib.Ctx, fs flowSpec, nsess int, ops []op, early bool, sc
 	for _, w := range r.fails {
 		*fails = append(*fails, lib.OracleFail{Class: "flow", What: w, Replay: replay()})
 	}
-	// model: the event sequence the harness's hooks saw
+	// model: the event sequence the harness's hooks saw – one request event and one answer event
+	// per request of the request log (the reference reading says how many requests passed each
+	// port; a hook that fires more often than that is not a request and is not fed to the model,
+	// so that model and agent disagree about it)
 	t.mu.Lock()
 	log := append([]hookEv(nil), t.log...)
 	t.mu.Unlock()
+	type evKey struct {
+		sess int
+		key  portKey
+		req  bool
+	}
+	seen := map[evKey]int{}
 	for _, e := range log {
+		if !(early && e.sess == 0) {
+			k := evKey{e.sess, e.key, e.inb == (e.key.in >= 0)}
+			seen[k]++
+			if want := r.ss[e.sess].ip.reqs[portReq{e.key.sym, e.key.in < 0, t.names[e.key]}]; seen[k] > want {
+				c.Hit("frames-hook-fired-more-often-than-requests-passed")
+				trace = append(trace, fmt.Sprintf("# hook call beyond the %d requests of port %v (%s) in session %d: packet %d", want, e.key, t.names[e.key], e.sess, e.pck))
+				continue
+			}
+		}
 		name := "outb"
 		if e.inb {
 			name = "inb"
@@ -313,7 +390,7 @@ func framesCaseBody(c *lib.Ctx, fs flowSpec, nsess int, ops []op, early bool, sc
 		for _, row := range rows {
 			trace = append(trace, fmt.Sprintf("# frame sess=%d port=%v(%s) in=%s out=%s", si, row.key, t.names[row.key], pid(row.in), pid(row.out)))
 		}
-		if class, what := framesOracle(t, si, rows); class != "" {
+		if class, what := framesOracle(t, si, rows, sr); class != "" {
 			*fails = append(*fails, lib.OracleFail{Class: class, What: fs.String() + ": " + what, Replay: replay()})
 		}
 		// interleaving across ports of one symbol in this case? several requests open on one port?
